@@ -262,6 +262,10 @@ class NamedGlob:
             path = Path(path)
             if path.is_dir():
                 path = path / ""
+            elif path.endswith("/"):
+                # For a recursive pattern, glob yields "prefix/" without checking
+                # that the wildcard-free prefix is an existing directory.
+                continue
             paths.append(path)
         self.extend(paths)
 
